@@ -19,7 +19,8 @@ for cid in ids:
     n = V / "design_notes" / f"{cid}.md"
     if n.exists():
         body = n.read_text().strip()
-        body = "\n".join(("#" + l if l.startswith("#") else l) for l in body.splitlines())  # demote headings
+        body = "\n".join((("#" * min(len(l) - len(l.lstrip("#")) + 3, 6) + l[len(l) - len(l.lstrip("#")):]) if l.startswith("#") else l)
+                         for l in body.splitlines())  # demote headings below "### 9.6.x"
         sec = f"### 9.6.{cid} Build note for {cid} (written by the builder of that check)\n\n{body}\n\n"
         if f"### 9.6.{cid} " not in design:
             design = design.replace("---------------------------------------------------------------------------\n\n" + MARK,
